@@ -11,6 +11,10 @@ func init() {
 		gVote(c)
 		gElect(c)
 	}})
+	register(&PropertyRule{ID: "C12", Explain: "structural necessary conditions of C12 (quorum arithmetic): see DESIGN.md §5 C12", Run: func(c *Check) {
+		c12Quorum(c)
+		gQuorumJoint(c)
+	}})
 	register(&PropertyRule{ID: "C03", Explain: "structural necessary conditions of C03 (log matching): see DESIGN.md §5 C03", Run: func(c *Check) {
 		gTrunc(c)
 		gStable(c)
